@@ -13,6 +13,7 @@ open Strm Goal State Term
 
 inductive RProg where
   | succeed
+  | fail
   | atom (t : TAtom)
   | conj (p q : RProg)
   | alt (p q : RProg)
@@ -29,6 +30,7 @@ namespace RProg
 
 def goal (ord : Order) : RProg → G
   | succeed => .succeed
+  | fail => .fail
   | atom t => .atom (liftRes fun st => postAtom ord st t)
   | conj p q => .conj (goal ord p) (goal ord q)
   | alt p q => .alt (goal ord p) (goal ord q)
@@ -38,6 +40,7 @@ def goal (ord : Order) : RProg → G
 /-- the declarative meaning -/
 def Sem : RProg → Subst → Prop
   | succeed, _ => True
+  | fail, _ => False
   | atom t, γ => t.Sat γ
   | conj p q, γ => Sem p γ ∧ Sem q γ
   | alt p q, γ => Sem p γ ∨ Sem q γ
@@ -47,6 +50,7 @@ def Sem : RProg → Subst → Prop
 /-- every term of the program is over variables below `m`; every call is a valid library call -/
 def WF (m : Nat) : RProg → Prop
   | succeed => True
+  | fail => True
   | atom (.eq u v) => Below m u ∧ Below m v
   | atom (.neq u v) => Below m u ∧ Below m v
   | conj p q => WF m p ∧ WF m q
@@ -56,6 +60,7 @@ def WF (m : Nat) : RProg → Prop
 
 theorem WF.mono {m m' : Nat} (hm : m ≤ m') : ∀ (p : RProg), WF m p → WF m' p
   | succeed, _ => trivial
+  | fail, _ => trivial
   | atom (.eq _ _), h => ⟨h.1.mono hm, h.2.mono hm⟩
   | atom (.neq _ _), h => ⟨h.1.mono hm, h.2.mono hm⟩
   | conj p q, h => ⟨WF.mono hm p h.1, WF.mono hm q h.2⟩
@@ -77,6 +82,7 @@ theorem relSem_agree {m : Nat} {γ γ' : Subst} (c : Call) (hb : ∀ t ∈ c.arg
 /-- the meaning only looks at the program's variables -/
 theorem sem_agree {m : Nat} {γ γ' : Subst} (hag : Agree m γ γ') : ∀ (p : RProg), WF m p → Sem p γ → Sem p γ'
   | succeed, _, _ => trivial
+  | fail, _, h => h
   | atom (.eq u v), w, h => sat_agree (.eq u v) w hag h
   | atom (.neq u v), w, h => sat_agree (.neq u v) w hag h
   | conj p q, w, h => ⟨sem_agree hag p w.1 h.1, sem_agree hag q w.2 h.2⟩
@@ -86,6 +92,7 @@ theorem sem_agree {m : Nat} {γ γ' : Subst} (hag : Agree m γ γ') : ∀ (p : R
 
 theorem plain (ord : Order) : ∀ (p : RProg), Plain (p.goal ord)
   | succeed => .succeed
+  | fail => .fail
   | atom _ => .atom _
   | conj p q => .conj (plain ord p) (plain ord q)
   | alt p q => .alt (plain ord p) (plain ord q)
@@ -100,6 +107,7 @@ variable {ord : Order}
 /-- SOUNDNESS for programs: the goal denotes the declarative meaning -/
 theorem prog_den (ho : OrderOK ord) (N : Nat) : ∀ (p : RProg), DenN ord N (p.goal ord) p.Sem
   | .succeed => den_succeed N
+  | .fail => den_fail N _
   | .atom t => den_atom ho N t
   | .conj p q => den_conj (prog_den ho N p) (prog_den ho N q)
   | .alt p q => den_alt (prog_den ho N p) (prog_den ho N q)
@@ -118,27 +126,33 @@ theorem flow_valid (c : Call) (hv : c.Valid) {a : State} (hp : a.panic.isSome = 
   · exact flow_permute _ _ _ hp
   · exact flow_distinct _ _ hp
 
-/-- … and through a program -/
-theorem flow_prog : ∀ (p : RProg) {m : Nat}, p.WF m → ∀ {a : State}, a.panic.isSome = true →
+/-- … and through a program that has a solution (a literal `fail` on every path would stop it, but then the
+    program has no solution) -/
+theorem flow_prog : ∀ (p : RProg) {m : Nat}, p.WF m → ∀ {γ : Subst}, p.Sem γ → ∀ {a : State}, a.panic.isSome = true →
     ∃ b, Big (defs ord) (p.goal ord) a b ∧ b.panic.isSome = true
-  | .succeed, _, _, a, hp => ⟨a, big_succeed.2 rfl, hp⟩
-  | .atom t, _, _, a, hp => ⟨a, flow_atom _ hp, hp⟩
-  | .conj p q, _, w, a, hp => by
-    obtain ⟨c, hc, pc⟩ := flow_prog p w.1 hp
-    obtain ⟨b, hb, pb⟩ := flow_prog q w.2 pc
+  | .succeed, _, _, _, _, a, hp => ⟨a, big_succeed.2 rfl, hp⟩
+  | .fail, _, _, _, h, _, _ => h.elim
+  | .atom t, _, _, _, _, a, hp => ⟨a, flow_atom _ hp, hp⟩
+  | .conj p q, _, w, _, h, a, hp => by
+    obtain ⟨c, hc, pc⟩ := flow_prog p w.1 h.1 hp
+    obtain ⟨b, hb, pb⟩ := flow_prog q w.2 h.2 pc
     exact ⟨b, big_conj.2 ⟨c, hc, hb⟩, pb⟩
-  | .alt p _, _, w, a, hp => by
-    obtain ⟨b, hb, pb⟩ := flow_prog p w.1 hp
-    exact ⟨b, big_alt.2 (.inl hb), pb⟩
-  | .fresh p, m, w, a, hp => by
-    obtain ⟨b, hb, pb⟩ := flow_prog p (m := m) w hp
+  | .alt p q, _, w, _, h, a, hp => by
+    rcases h with h | h
+    · obtain ⟨b, hb, pb⟩ := flow_prog p w.1 h hp
+      exact ⟨b, big_alt.2 (.inl hb), pb⟩
+    · obtain ⟨b, hb, pb⟩ := flow_prog q w.2 h hp
+      exact ⟨b, big_alt.2 (.inr hb), pb⟩
+  | .fresh p, m, w, _, h, a, hp => by
+    obtain ⟨b, hb, pb⟩ := flow_prog p (m := m) w h hp
     exact ⟨b, big_fresh.2 hb, pb⟩
-  | .call c, _, w, a, hp => flow_valid c w.1 hp
+  | .call c, _, w, _, _, a, hp => flow_valid c w.1 hp
 
 /-- COMPLETENESS for programs -/
 theorem prog_complete (ho : OrderOK ord) : ∀ (p : RProg) (a : State) (γ : Subst), p.WF a.nextVar →
     a.panic.isSome = false → RInv a → StateSem γ a → p.Sem γ → ∃ b, Big (defs ord) (p.goal ord) a b ∧ Post a γ b
   | .succeed, a, γ, _, _, hi, hγ, _ => ⟨a, big_succeed.2 rfl, .inr ⟨hi, Nat.le_refl _, γ, Agree.refl _ _, hγ⟩⟩
+  | .fail, _, _, _, _, _, _, h => h.elim
   | .atom (.eq u v), a, γ, w, hp, hi, hγ, h => by
     obtain ⟨b, hb, post⟩ := comp_atom ho (.eq u v) w hp hi hγ h
     refine ⟨b, hb, ?_⟩
@@ -155,7 +169,7 @@ theorem prog_complete (ho : OrderOK ord) : ∀ (p : RProg) (a : State) (γ : Sub
     obtain ⟨c, hc, pc⟩ := prog_complete ho p a γ w.1 hp hi hγ h.1
     cases hpc : c.panic.isSome with
     | true =>
-      obtain ⟨b, hb, pb⟩ := flow_prog (ord := ord) q w.2 hpc
+      obtain ⟨b, hb, pb⟩ := flow_prog (ord := ord) q w.2 h.2 hpc
       exact ⟨b, big_conj.2 ⟨c, hc, hb⟩, .inl pb⟩
     | false =>
       rcases pc with x | ⟨ic, nvc, γ', hag, sc⟩
